@@ -76,7 +76,12 @@ func (p *planner) getPrefix() string {
 
 func (p *planner) planComplex(root iExpressionPlanner, current iExpressionPlanner,
 	script *traceql_parser.TraceQLScript) {
-	switch script.AndOr {
+	op := script.AndOr
+	if script.Tail == nil {
+		// the grammar accepts an operator with nothing after it (`{a} && {b} &&`): this is the last selector
+		op = ""
+	}
+	switch op {
 	case "":
 		current.addOp(&simpleExpressionPlanner{script: script, prefix: p.getPrefix()})
 	case "&&":
